@@ -317,15 +317,12 @@ static void op_new(char *args)
       if (!isnull) { o.kind = K_PJE; o.Fs = Fs; o.nch = nch; o.streams = streams; o.coupled = coupled; o.fam = fam; }
    } else if (!strcmp(kind, "pjd")) {
       int Fs = a[0], nch = a[1], streams = a[2], coupled = a[3], failk = a[4];
-      long msz = (long)nch * (streams + coupled) * 2; unsigned char *dm; int dmok = msz > 0 && nch > 0;
+      /* the matrix size always matches the layout, also for impossible layouts (no channel, no or a
+         negative number of input streams): those must be refused like any other bad argument */
+      long msz = (long)nch * (streams + coupled) * 2; unsigned char *dm;
       js_int("Fs", Fs); js_int("nch", nch); js_int("streams", streams); js_int("coupled", coupled); js_int("fam", 3); js_int("failk", failk);
-      /* a degenerate layout (no channel or no input stream) is passed with a matrix size that does not
-         match, so that it is refused by the size check: with an empty matrix the library evaluates a
-         zero-length variable-length array before it refuses, which UBSan (vla-bound) turns into an abort
-         although no build of the library misbehaves there (noted in the C11 report) */
-      if (!dmok) msz = 2;
-      js_int("dmOK", dmok);
-      dm = (unsigned char *)calloc(msz ? msz : 1, 1);
+      js_int("dmOK", 1);
+      dm = (unsigned char *)calloc(msz > 0 ? msz : 1, 1);
       fault_arm(failk); o.pjd = opus_projection_decoder_create(Fs, nch, streams, coupled, dm, (opus_int32)msz, &err); failed = fault_disarm();
       free(dm);
       rc = err; isnull = o.pjd == NULL;
@@ -656,8 +653,9 @@ static void gen_create(void)
    /* projection */
    for (c = 0; c <= 12; c++) for (a = 2; a <= 4; a++) for (k = 0; k <= 2; k++)
       printf("N pje %d %d %d %d %d\nS 4010 5\n", c == 9 ? 44100 : 48000, c, a, c == 6 ? 2050 : 2049, k);
-   { static const int lay[][3] = {{4, 2, 2}, {6, 3, 3}, {9, 5, 4}, {4, 2, 3}, {0, 1, 0}, {4, 0, 0}, {4, 2, -1}};
-     for (i = 0; i < 7; i++) for (c = 0; c < 3; c++) for (k = 0; k <= 2; k++)
+   { static const int lay[][3] = {{4, 2, 2}, {6, 3, 3}, {9, 5, 4}, {4, 2, 3}, {0, 1, 0}, {4, 0, 0}, {4, 2, -1},
+                                  {0, 0, 0}, {-1, 1, 0}, {-4, 2, 2}, {0, 2, 2}, {4, 1, -1}, {4, -1, 1}, {-2, -1, -1}, {256, 1, 0}, {4, 200, 100}};
+     for (i = 0; i < 16; i++) for (c = 0; c < 3; c++) for (k = 0; k <= 2; k++)
         printf("N pjd %d %d %d %d %d\nS 4034 100\n", (int[]){48000, 8000, 44100}[c], lay[i][0], lay[i][1], lay[i][2], k);
    }
 }
